@@ -128,8 +128,12 @@ func (op Cilc) Simulate(vm *VM, instr string) error {
 		vm.Registers[reg] = vm.Registers[reg].(uint8) << 1
 	case 16:
 		vm.Registers[reg] = vm.Registers[reg].(uint16) << 1
+	case 32:
+		vm.Registers[reg] = vm.Registers[reg].(uint32) << 1
+	case 64:
+		vm.Registers[reg] = vm.Registers[reg].(uint64) << 1
 	default:
-		// TODO Fix
+		return errors.New("invalid register size, 8, 16, 32 and 64 bits are supported")
 	}
 	vm.Pc = vm.Pc + 1
 	return nil
